@@ -30,6 +30,13 @@ Theorem C02_prefix_free : forall v1 v2 r, wf_dval v1 -> wf_dval v2 ->
 Proof. exact value_enc_not_prefix. Qed.
 Print Assumptions C02_prefix_free.
 
+(* and a byte string splits into well-formed dynamic values in at most one way (this is what
+   lets a list of values, or values written back to back, be read without any framing) *)
+Theorem C02_stream_injective : forall vs1 vs2, Forall wf_dval vs1 -> Forall wf_dval vs2 ->
+  flat_map enc_dval vs1 = flat_map enc_dval vs2 -> vs1 = vs2.
+Proof. exact enc_dval_stream_injective. Qed.
+Print Assumptions C02_stream_injective.
+
 (* the data of an opaque value: the signature-driven reader returns exactly the bytes it consumed.
    Any well-formed signature, containers of zero-width elements included ("[v]", "[()]", "{v()}" ...) *)
 Theorem C02_opaque_data : forall c v t fuel rest, value_reader_no_len c = false ->
